@@ -164,7 +164,7 @@ func (t *Tokenizer) Reset() {
 	t.logger = nil
 
 	// Preserve Comments slice capacity but reset length
-	if cap(t.Comments) > 0 {
-		t.Comments = t.Comments[:0]
-	}
+	// The Comments slice is handed to callers (tkz.Comments): do not reuse its
+	// backing array, or the next input would overwrite what they still hold.
+	t.Comments = nil
 }
